@@ -318,6 +318,7 @@ func (ex *Exec) prepare(decl *ast.FuncDecl) {
 	info := ex.info
 	nl, nc := 0, 0
 	ex.closureOfVar = map[*types.Var]*ast.FuncLit{}
+	ex.containerOf = map[*types.Var]*containerSrc{}
 	ex.allLits = map[*ast.FuncLit]bool{}
 	ex.freshSliceVars = map[*types.Var]bool{}
 	notFresh := map[*types.Var]bool{}
@@ -343,6 +344,12 @@ func (ex *Exec) prepare(decl *ast.FuncDecl) {
 					}
 				}
 			}
+			// standard-library functions documented to return a newly allocated slice (listed assumption)
+			if sel, ok := unparen(x.Fun).(*ast.SelectorExpr); ok {
+				if fn, ok := info.Uses[sel.Sel].(*types.Func); ok && fn.Pkg() != nil && freshSliceStdFuncs[fn.Pkg().Path()+"."+fn.Name()] {
+					return true
+				}
+			}
 		}
 		return false
 	}
@@ -351,6 +358,27 @@ func (ex *Exec) prepare(decl *ast.FuncDecl) {
 		case *ast.ForStmt, *ast.RangeStmt:
 			ex.loopOrd[n] = nl
 			nl++
+			if rs, ok := n.(*ast.RangeStmt); ok && rs.Tok == token.DEFINE {
+				// for k, v := range m with slice-typed values of a map: v shares its backing array with m[k]
+				kid, _ := rs.Key.(*ast.Ident)
+				vid, _ := rs.Value.(*ast.Ident)
+				if vid != nil && vid.Name != "_" {
+					if tv, ok := info.Types[rs.X]; ok && tv.Type != nil {
+						if mt, ok := under(tv.Type).(*types.Map); ok {
+							if _, ok := under(mt.Elem()).(*types.Slice); ok {
+								if vo, ok := info.Defs[vid].(*types.Var); ok {
+									if kid != nil && kid.Name != "_" {
+										ex.containerOf[vo] = &containerSrc{X: rs.X, Key: kid, keyObj: info.Defs[kid]}
+									} else if rs.Key == nil || kid != nil {
+										// blank key: the key of the current iteration is the loop's $key
+										ex.containerOf[vo] = &containerSrc{X: rs.X, loopKey: fmt.Sprintf("$key%d", nl-1)}
+									}
+								}
+							}
+						}
+					}
+				}
+			}
 		case *ast.FuncLit:
 			ex.cloOrd[s] = nc
 			nc++
@@ -460,6 +488,20 @@ func (ex *Exec) prepare(decl *ast.FuncDecl) {
 						delete(ex.freshPtrVars, o)
 					}
 				}
+				if i == 0 && len(s.Rhs) == 1 && s.Tok == token.DEFINE {
+					// v := m[k] / v, ok := m[k] with a slice-typed element of a map and a plain variable as key
+					if ix, ok := unparen(s.Rhs[0]).(*ast.IndexExpr); ok {
+						if tv, ok := info.Types[ix.X]; ok && tv.Type != nil {
+							if mt, ok := under(tv.Type).(*types.Map); ok {
+								if _, ok := under(mt.Elem()).(*types.Slice); ok {
+									if kid, ok := unparen(ix.Index).(*ast.Ident); ok && info.Uses[kid] != nil {
+										ex.containerOf[o] = &containerSrc{X: ix.X, Key: kid, keyObj: info.Uses[kid], fromDecl: true}
+									}
+								}
+							}
+						}
+					}
+				}
 				if len(s.Rhs) == len(s.Lhs) {
 					if lit, ok := unparen(s.Rhs[i]).(*ast.FuncLit); ok {
 						ex.closureOfVar[o] = lit
@@ -500,6 +542,13 @@ func (ex *Exec) prepare(decl *ast.FuncDecl) {
 	for i := 0; i < sig.Params().Len(); i++ {
 		delete(ex.freshSliceVars, sig.Params().At(i))
 	}
+}
+
+// freshSliceStdFuncs: standard-library functions whose slice result is newly allocated (never aliases an argument or
+// shared storage), so element writes through a variable initialised from them are alias-free.
+var freshSliceStdFuncs = map[string]bool{
+	"strings.Split": true, "strings.SplitN": true, "strings.SplitAfter": true, "strings.SplitAfterN": true,
+	"strings.Fields": true, "strings.FieldsFunc": true, "slices.Clone": true, "bytes.Clone": true,
 }
 
 func (ex *Exec) finish(res *FuncResult) {
